@@ -1,4 +1,174 @@
-import BioCantor.Spec.Variants
-import BioCantor.Model.Variants
+/-
+  C13 — variant haplotypes: alternative sequence and lift-over match the edit model.
+
+  Property theorems only (helper lemmas: Proofs/VarKernel.lean, Proofs/VarAlt.lean, Proofs/VarLift.lean).
+    Spec.Variants   position-wise semantics of edits: `piece`, `image ref es lo hi` (edited image of a reference
+                    range), `altOf` (literal substitution of every edit), `newPos`/`imageBlock` (where a position /
+                    a block sits on the haplotype), verdict functions `okAltSeq`, `okLift`, `okIncorporate`, `okVcf`
+    Model.Variants  mirror of gene/variants.py; its single-interval kernel IS the definition generated from the
+                    source on every run, and the T2 theorems are stated about that generated definition (`liftK`)
+  Coordinates in T1/T3 are those of the parent's own sequence (`off` = chunk start; 0 for a chromosome).
+-/
+import BioCantor.Proofs.VarLift
 namespace BioCantor.Props.C13
+open BioCantor BioCantor.GenP BioCantor.Spec.Variants BioCantor.Proofs.Var
+open BioCantor.Model.Variants (Var altSeq1 altSeqN kernel liftBlocks liftSingle lift1 liftN liftSeqSingle slice Par
+  vcfDicts)
+
+/-! ### T1 — alternative sequence = literal substitution -/
+
+/-- T1 (one variant, chromosome or chunk): `ref[:s] + alt + ref[e:]` is the position-wise literal substitution. -/
+theorem alt_single (off : Nat) (ref : Seq) (v : Var) (h1 : v.s - off < v.e - off) (h2 : v.e - off ≤ ref.length) :
+    altSeq1 off ref v = altOf ref [toEdit off v] :=
+  altSeq1_altOf off ref v h1 h2
+
+/-- T1 (collection, any number of variants): for variants sorted by start, pairwise disjoint and inside the
+    sequence, the splice loop yields the simultaneous literal substitution. -/
+theorem alt_collection (off : Nat) (ref : Seq) (vs : List Var) (hne : vs ≠ [])
+    (h : Chain ref.length (vs.map (toEdit off))) : altSeqN off ref vs = altOf ref (vs.map (toEdit off)) :=
+  altSeqN_altOf off ref vs hne h
+
+/-- T1 as a verdict of the specification's checker -/
+theorem alt_collection_verdict (off : Nat) (ref : Seq) (vs : List Var) (hne : vs ≠ [])
+    (h : Chain ref.length (vs.map (toEdit off))) :
+    okAltSeq ref (vs.map (toEdit off)) (some (altSeqN off ref vs)) = .pass := by
+  unfold okAltSeq
+  rw [chain_valid _ _ h, altSeqN_altOf off ref vs hne h]
+  cases vs with
+  | nil => exact absurd rfl hne
+  | cons v r => simp
+
+/-! ### T2 — the generated single-interval kernel (δ = |alt| − (ve − vs)) -/
+
+/-- variant wholly inside a non-empty block ⇒ `[bs, be + δ)`, unless block = variant interval with empty alt -/
+theorem kernel_inside (v : VI) (b : SI) (hv : VarOk v) (hb : BlkOk b) (h1 : b.start ≤ v.vstart) (h2 : v.vend ≤ b.«end»)
+    (hne : ¬ (b.start = v.vstart ∧ b.«end» = v.vend ∧ v.seqLen = 0)) :
+    liftK v b = .ok (some ⟨b.start, b.«end» + delta v, b.strand⟩) := k_inside v b hv hb h1 h2 hne
+
+/-- … that corner: the block IS the variant interval and the alt is empty ⇒ deleted -/
+theorem kernel_exact_deletion (v : VI) (b : SI) (hv : VarOk v) (hb : BlkOk b) (h1 : b.start = v.vstart)
+    (h2 : b.«end» = v.vend) (h0 : v.seqLen = 0) : liftK v b = .ok none := k_exact_deletion v b hv hb h1 h2 h0
+
+/-- variant wholly left of the block ⇒ shifted by δ -/
+theorem kernel_left (v : VI) (b : SI) (hv : VarOk v) (hb : BlkOk b) (h : v.vend ≤ b.start) :
+    liftK v b = .ok (some ⟨b.start + delta v, b.«end» + delta v, b.strand⟩) := k_left v b hv hb h
+
+/-- variant wholly right of the block ⇒ unchanged -/
+theorem kernel_right (v : VI) (b : SI) (hv : VarOk v) (hb : BlkOk b) (h : b.«end» ≤ v.vstart) :
+    liftK v b = .ok (some b) := k_right v b hv hb h
+
+/-- block wholly inside the deleted part `[vs + |alt|, ve)` ⇒ EmptyLocation -/
+theorem kernel_in_deleted (v : VI) (b : SI) (hv : VarOk v) (hb : BlkOk b) (hd : delta v < 0)
+    (h1 : v.vstart + v.seqLen ≤ b.start) (h2 : b.«end» ≤ v.vend) : liftK v b = .ok none :=
+  k_in_deleted v b hv hb hd h1 h2
+
+/-- a variant that keeps the length leaves every block in place -/
+theorem kernel_same_length (v : VI) (b : SI) (hd : delta v = 0) (h0 : 0 ≤ b.start) (h1 : b.start ≤ b.«end») :
+    liftK v b = .ok (some b) := k_same_length v b hd h0 h1
+
+/-- the only exception the kernel can raise is the block constructor's InvalidPositionException -/
+theorem kernel_error_kind (v : VI) (b : SI) (e : PyExc) (h : liftK v b = .error e) :
+    e = .InvalidPositionException := k_error_kind v b e h
+
+/-! ### T3 — one variant: the lifted location covers exactly the edited image -/
+
+/-- T3 (block): for a variant wholly inside the block or wholly outside it, the kernel's answer is the block's image
+    on the haplotype (`none` exactly when the image has no bases). -/
+theorem kernel_is_block_image (ref : Seq) (v : Var) (b : Blk) (st : Strand) (hv : v.s < v.e) (hvn : v.e ≤ ref.length)
+    (hb : b.1 < b.2) (hbn : b.2 ≤ ref.length) (hc : Clean v b) :
+    kernel v b st = .ok (nonEmpty (imageBlock ref [toEdit 0 v] b)) :=
+  kernel_clean ref v b st hv hvn hb hbn hc
+
+/-- T3 (block, sequence): read on the alternative sequence, the image block carries the edited image of the
+    block's reference bases. -/
+theorem image_block_reads_edit (ref : Seq) (v : Var) (b : Blk) (hv : v.s < v.e) (hvn : v.e ≤ ref.length)
+    (hb : b.1 ≤ b.2) (hbn : b.2 ≤ ref.length) :
+    slice (altSeq1 0 ref v) (imageBlock ref [toEdit 0 v] b) = image ref [toEdit 0 v] b.1 b.2 :=
+  block_reads_image ref v b hv hvn hb hbn
+
+/- T3, full statement (all locations, all parents):
+     ∀ loc clean w.r.t. v,  extract alt (lift1 par ref v loc) = onStrand st (blocks.flatMap (image ref [v] ·))
+                            ∧ blocks(lift1 …) = normBlocks (blocks.map imageBlock),  EmptyLocation when no bases remain.
+   Proved below: (a) `_partial` for any number of blocks up to `optimize_blocks`/re-parenting — the block loop of the
+   compound lift returns the images of the blocks and these read the edited image; (b) the complete entry point
+   `lift_over_location` for single-block locations on a whole chromosome.  The remaining leg (merging of touching
+   blocks by `optimize_blocks`, chunk re-parenting) is covered by the correspondence + `okLift` on the real code. -/
+
+/-- T3a (`_partial`: any number of blocks, before `optimize_blocks`) -/
+theorem lift_blocks_partial (ref : Seq) (v : Var) (st : Strand) (bs : List Blk) (hv : v.s < v.e)
+    (hvn : v.e ≤ ref.length) (hc : CleanAll ref.length v bs) :
+    liftBlocks v st bs = .ok (bs.filterMap fun b => nonEmpty (imageBlock ref [toEdit 0 v] b))
+    ∧ (bs.filterMap fun b => nonEmpty (imageBlock ref [toEdit 0 v] b)).flatMap (slice (altSeq1 0 ref v))
+        = bs.flatMap fun b => image ref [toEdit 0 v] b.1 b.2 :=
+  ⟨liftBlocks_clean ref v st bs hv hvn hc, lifted_blocks_read_image ref v bs hv hvn hc⟩
+
+/-- T3b (`VariantInterval.lift_over_location`, single-block location, whole chromosome): the image block; AS CODED an
+    exception when nothing remains (F-C13b — the property wants the EmptyLocation). -/
+theorem lift_single_block (ref : Seq) (v : Var) (b : Blk) (st : Strand) (hv : v.s < v.e) (hvn : v.e ≤ ref.length)
+    (hb : b.1 < b.2) (hbn : b.2 ≤ ref.length) (hc : Clean v b) :
+    lift1 .whole ref v (.single b st) =
+      (match nonEmpty (imageBlock ref [toEdit 0 v] b) with
+       | some ib => .ok (.single ib st)
+       | none => .error .EmptyLocation) :=
+  lift1_single_clean ref v b st hv hvn hb hbn hc
+
+/-! ### T5 — collections: sequential ascending application -/
+
+/-- T5 (positive part, `_partial`): when every variant before the last keeps the length, the sequential application
+    coded in `VariantIntervalCollection.lift_over_location` equals the application of the last variant (to which T3
+    applies).  Full statement — sequential = simultaneous for EVERY sorted disjoint collection — is false for the
+    code as it is: `sequential_application_defect_witness`. -/
+theorem sequential_ok_partial (pre : List Var) (v : Var) (b : Blk) (st : Strand) (hb : b.1 ≤ b.2)
+    (hpre : ∀ u ∈ pre, (u.alt.length : Int) - ((u.e : Int) - (u.s : Int)) = 0) :
+    liftSeqSingle (pre ++ [v]) (.single b st) = liftSingle v (.single b st) :=
+  liftSeqSingle_prefix pre v b st hb hpre
+
+def refW : Seq := "GCTTCCAAGGTTACGTACGTTTGACC".toList
+def v1 : Var := ⟨2, 6, ['C', 'A']⟩
+def v2 : Var := ⟨13, 15, ['A', 'G', 'G']⟩
+
+/-- T5 (negative witness, F-C13a): variants (2,6,"CA") and (13,15,"AGG"), block [15,24).  The modelled code answers
+    [13,23) (it compares the block, already shifted to 13, with the second variant's reference interval); the image of
+    the block is [14,23), and the specification's checker rejects the answer. -/
+theorem sequential_application_defect_witness :
+    liftN .whole refW [v1, v2] (.single (15, 24) .plus) = .ok (.single (13, 23) .plus)
+    ∧ imageBlock refW [toEdit 0 v1, toEdit 0 v2] (15, 24) = (14, 23)
+    ∧ okLift refW [toEdit 0 v1, toEdit 0 v2] .plus [(15, 24)]
+        (some (some ⟨.plus, [(13, 23)], slice (altSeqN 0 refW [v1, v2]) (13, 23)⟩)) = .fail := by
+  refine ⟨by rfl, by decide, by decide⟩
+
+/-- F-C13b witness: a block inside the deleted part of an unpadded deletion; the code raises, the property wants the
+    EmptyLocation (the checker's verdict is the dedicated `failDeletedRaises`). -/
+theorem deleted_location_raises_witness :
+    lift1 .whole refW ⟨2, 6, []⟩ (.single (3, 5) .plus) = .error .EmptyLocation
+    ∧ okLift refW [⟨2, 6, []⟩] .plus [(3, 5)] none = .failDeletedRaises
+    ∧ okLift refW [⟨2, 6, []⟩] .plus [(3, 5)] (some none) = .pass := by
+  refine ⟨by rfl, by decide, by decide⟩
+
+/-! ### T4 — VCF records: one variant per alternative allele (grouping itself: correspondence + `okVcf`) -/
+
+theorem vcf_one_variant_per_alt (r : Model.Variants.VcfRec) :
+    (vcfDicts r).length = r.alts.length
+    ∧ ∀ d ∈ vcfDicts r, d.start = r.start ∧ d.«end» = (if r.start = r.«end» then r.«end» + 1 else r.«end») ∧ d.phase = r.ps := by
+  refine ⟨by simp [vcfDicts], ?_⟩
+  intro d hd
+  simp only [vcfDicts, List.mem_map] at hd
+  obtain ⟨a, _, rfl⟩ := hd
+  exact ⟨rfl, rfl, rfl⟩
+
+-- non-vacuity of the hypotheses
+example : Chain refW.length ([v1, v2].map (toEdit 0)) := by
+  simp only [List.map, Chain, toEdit, v1, v2]; decide
+example : Chain 26 ([⟨102, 106, ['C']⟩, ⟨113, 115, []⟩].map (toEdit 100)) := by
+  simp only [List.map, Chain, toEdit]; decide
+example : VarOk ⟨2, 6, 2⟩ ∧ BlkOk ⟨15, 24, .minus⟩ := by unfold VarOk BlkOk; decide
+example : CleanAll refW.length v1 [(0, 8), (10, 12), (20, 26)] := by
+  intro b hb
+  simp only [List.mem_cons, List.mem_nil_iff, or_false] at hb
+  rcases hb with rfl | rfl | rfl <;> decide
+example : Clean ⟨2, 6, []⟩ (2, 6) ∧ nonEmpty (imageBlock refW [toEdit 0 ⟨2, 6, []⟩] (2, 6)) = none := by decide
+example : lift1 .whole refW v1 (.single (15, 24) .minus) = .ok (.single (13, 22) .minus) := by rfl
+example : okLift refW [toEdit 0 v1] .minus [(15, 24)]
+    (some (some ⟨.minus, [(13, 22)], (slice (altSeq1 0 refW v1) (13, 22)).reverse.map complement⟩)) = .pass := by decide
+
 end BioCantor.Props.C13
